@@ -2,6 +2,9 @@
 #include <tulz/LocaleInfo.h>
 
 #include <set>
+#include <sstream>
+#include <sys/wait.h>
+#include <unistd.h>
 #include <string>
 #include <vector>
 
@@ -11,7 +14,8 @@ using namespace sx;
 using tulz::LocaleInfo;
 
 namespace {
-void bad(const std::string &sig, const std::string &msg) { violation(sig, msg); }
+std::string g_after, g_hist;
+void bad(const std::string &sig, const std::string &msg) { violation(sig, msg + g_after, g_hist); }
 
 std::string show(const std::string &s) { return s.size() > 40 ? s.substr(0, 18) + "..(" + std::to_string(s.size()) + " bytes).." + s.substr(s.size() - 8) : s; }
 
@@ -39,7 +43,8 @@ bool is_lang_name_ptr(const char *p) { for (int i = 0; i < LocaleInfo::languages
 
 uint64_t g_recognized;
 
-void check(const std::string &s) {
+void check(const std::string &s, const std::string &history = "") {
+    g_hist = history; g_after = history.empty() ? "" : " [as part of the call history " + history.substr(10) + "; the answer to a string must not depend on earlier calls]";
     // LocaleInfo::get reports every fallback on stderr; keep that chatter out of the log (the sanitizers write to fd 2 directly and are not affected)
     static FILE *devnull = nullptr;
     if (!devnull) { devnull = fopen("/dev/null", "w"); if (devnull) stderr = devnull; }
@@ -114,13 +119,40 @@ void explore() {
         sample("locale qqqq(64 x q)_GB");
         shm->states += g_recognized;
     });
+    // (d) call histories: get() is specified as a function of its argument, so the answer must not depend on what was asked before.  Every sequence of <= 3 calls over a
+    //     small alphabet of inputs (recognised by code and by name, unknown, malformed, empty, over-long), each sequence in a fresh process, every answer checked.
+    {
+        static const std::vector<std::string> H = {"en_GB", "de_DE.UTF-8", "Hungarian_Hungary", "cu_AF", "C", "", "en_", "xx_YY", "_GB", "en_GB.", std::string(70, 'q') + "_GB", "fr_FR"};
+        size_t maxseq = thorough() ? 4 : 3;
+        for (size_t first = 0; first < H.size(); first++) tasks.push_back([=] {
+            std::vector<std::vector<size_t>> seqs{{first}};
+            for (size_t qi = 0; qi < seqs.size(); qi++) {
+                auto cur = seqs[qi];
+                if (cur.size() < maxseq) for (size_t k = 0; k < H.size(); k++) { auto nx = cur; nx.push_back(k); seqs.push_back(nx); }
+                if (cur.size() < 2) continue;        // single calls are what (a)-(c) do
+                std::string hist = "localeseq "; for (size_t i = 0; i < cur.size(); i++) { if (i) hist += "|"; hist += H[cur[i]]; }
+                mark(hist);
+                fflush(stdout);
+                pid_t pid = fork();
+                if (pid == 0) { for (size_t i = 0; i < cur.size(); i++) check(H[cur[i]], hist); _exit(0); }
+                int st = 0; waitpid(pid, &st, 0);
+                if (!WIFEXITED(st) || WEXITSTATUS(st) != 0) violation("crash", WIFSIGNALED(st) ? fmt("crash: killed by signal %d (see the replay for the sanitizer report)", WTERMSIG(st)) : fmt("crash: exit status %d", WEXITSTATUS(st)), hist);
+                shm->states++;
+            }
+            if (first == 4) sample("localeseq de_DE.UTF-8|C|C");
+        });
+    }
     parallel(tasks);
     shm->validated = shm->evaluations;
     sx::detail(fmt("(a) all %zu language codes and names x all %zu country codes and names x {no suffix, .UTF-8, ., .1252}; (b) every string of length <= %d over {e,n,G,B,_,.,x}; (c) language and country parts of every length 0..80 in the shapes "
-                   "L_C, L_C.s, L.s_C, L_GB, en_C, L, _L, L_, L., .L, with delimiters in both orders; states = inputs that are well-formed per the independent parser", langs.size(), countries.size(), maxlen));
+                   "L_C, L_C.s, L.s_C, L_GB, en_C, L, _L, L_, L., .L, with delimiters in both orders; (d) every sequence of 2..%zu calls over 12 representative inputs, each in a fresh process (the answer must not depend on earlier calls); states = inputs that are well-formed per the independent parser", langs.size(), countries.size(), maxlen, (size_t)(thorough() ? 4 : 3)));
 }
 
-void replay(const std::string &hist) { if (hist.compare(0, 7, "locale ") == 0) check(hist.substr(7)); else violation("replay:parse", "cannot parse " + hist); }
+void replay(const std::string &hist) {
+    if (hist.compare(0, 7, "locale ") == 0) check(hist.substr(7));
+    else if (hist.compare(0, 10, "localeseq ") == 0) { std::stringstream ss(hist.substr(10)); std::string one; std::vector<std::string> v; while (std::getline(ss, one, '|')) v.push_back(one); if (!hist.empty() && hist.back() == '|') v.push_back(""); for (auto &x : v) check(x, hist); }
+    else violation("replay:parse", "cannot parse " + hist);
+}
 }  // namespace
 
 int main(int argc, char **argv) {
